@@ -9,6 +9,7 @@ from __future__ import annotations
 
 import builtins
 import numbers
+import os
 import sys
 import time
 
@@ -189,7 +190,7 @@ class SymInt:
     # -- arithmetic
     def __add__(self, o):
         if _is_floatlike(o):
-            return _wrapr(z3.ToReal(self.z) + z3.RealVal(float(o)))
+            return SymReal._of(self) + o
         if isinstance(o, SymReal):
             return NotImplemented
         if not _is_intlike(o):
@@ -200,21 +201,21 @@ class SymInt:
 
     def __sub__(self, o):
         if _is_floatlike(o):
-            return _wrapr(z3.ToReal(self.z) - z3.RealVal(float(o)))
+            return SymReal._of(self) - o
         if isinstance(o, SymReal) or not _is_intlike(o):
             return NotImplemented
         return _wrapi(self.z - _z(o))
 
     def __rsub__(self, o):
         if _is_floatlike(o):
-            return _wrapr(z3.RealVal(float(o)) - z3.ToReal(self.z))
+            return o - SymReal._of(self)
         if not _is_intlike(o):
             return NotImplemented
         return _wrapi(_z(o) - self.z)
 
     def __mul__(self, o):
         if _is_floatlike(o):
-            return _wrapr(z3.ToReal(self.z) * z3.RealVal(float(o)))
+            return SymReal._of(self) * o
         if isinstance(o, SymReal) or not _is_intlike(o):
             return NotImplemented
         return _wrapi(self.z * _z(o))
@@ -282,7 +283,7 @@ class SymInt:
         if _is_floatlike(o):
             if float(o) == 0.0:
                 raise ZeroDivisionError("float division by zero")
-            return _wrapr(z3.ToReal(self.z) / z3.RealVal(float(o)))
+            return SymReal._of(self) / o
         if not _is_intlike(o):
             return NotImplemented
         if isinstance(o, SymInt):
@@ -290,7 +291,10 @@ class SymInt:
                 raise ZeroDivisionError("division by zero")
         elif int(o) == 0:
             raise ZeroDivisionError("division by zero")
-        return _wrapr(z3.ToReal(self.z) / z3.ToReal(_z(o)))
+        out = _wrapr(z3.ToReal(self.z) / z3.ToReal(_z(o)))
+        if not isinstance(o, SymInt):
+            out.q = (self.z, int(o)) if int(o) > 0 else (-self.z, -int(o))
+        return out
 
     def __rtruediv__(self, o):
         if SymBool(self.z == 0):
@@ -440,14 +444,57 @@ class FloatNaN:
 IEEE_DIV = False
 
 
+def _q_of(o):
+    """(numerator Int term, positive int denominator) of an operand that is an integer over a constant, else None"""
+    if isinstance(o, SymReal):
+        return o.q
+    if isinstance(o, SymInt):
+        return (o.z, 1)
+    if isinstance(o, SymBool):
+        return (_z(o), 1)
+    if isinstance(o, float):
+        return (z3.IntVal(int(o)), 1) if o == o and o not in (float("inf"), float("-inf")) and o == int(o) else None
+    if isinstance(o, (bool, int, numbers.Integral)):
+        return (z3.IntVal(int(o)), 1)
+    return None
+
+
+def _q_comb(a, b, op):
+    if a is None or b is None:
+        return None
+    (n1, d1), (n2, d2) = a, b
+    if op in ("+", "-"):
+        import math as _m
+
+        d = d1 * d2 // _m.gcd(d1, d2)
+        if d > 64:
+            return None
+        x, y = n1 * (d // d1), n2 * (d // d2)
+        return (z3.simplify(x + y if op == "+" else x - y), d)
+    if op == "*":
+        if z3.is_int_value(n2) or z3.is_int_value(n1):
+            return (z3.simplify(n1 * n2), d1 * d2) if d1 * d2 <= 64 else None
+        return None
+    if op == "/":
+        if z3.is_int_value(n2) and n2.as_long() != 0 and d2 == 1:
+            k = n2.as_long()
+            if d1 * abs(k) > 64:
+                return None
+            return (n1 if k > 0 else z3.simplify(-n1), d1 * abs(k))
+        return None
+
+
 class SymReal:
     """Exact rational/real arithmetic standing in for Python floats (DESIGN 2.4: float
     rounding is not modelled; exact while magnitudes stay below 2**53)."""
 
-    __slots__ = ("z",)
+    # q: (numerator Int term, positive concrete denominator) when the value is an integer over a constant -- floor/ceil/
+    # trunc then stay in integer arithmetic (div), which z3 decides far more readily than to_int over mixed terms
+    __slots__ = ("z", "q")
 
-    def __init__(self, z):
+    def __init__(self, z, q=None):
         self.z = z
+        self.q = q
 
     @staticmethod
     def _r(o):
@@ -471,33 +518,37 @@ class SymReal:
 
     @staticmethod
     def _of(o):
-        return SymReal(SymReal._r(o))
+        return SymReal(SymReal._r(o), _q_of(o))
 
     @staticmethod
     def _ok(o):
         return isinstance(o, (SymReal, SymInt, SymBool, int, float, numbers.Real)) and not isinstance(o, FloatNaN)
 
+    def _with_q(self, q):
+        self.q = q
+        return self
+
     def __add__(self, o):
         if not self._ok(o):
             return NotImplemented
-        return _wrapr(self.z + self._r(o))
+        return _wrapr(self.z + self._r(o))._with_q(_q_comb(self.q, _q_of(o), "+"))
 
     __radd__ = __add__
 
     def __sub__(self, o):
         if not self._ok(o):
             return NotImplemented
-        return _wrapr(self.z - self._r(o))
+        return _wrapr(self.z - self._r(o))._with_q(_q_comb(self.q, _q_of(o), "-"))
 
     def __rsub__(self, o):
         if not self._ok(o):
             return NotImplemented
-        return _wrapr(self._r(o) - self.z)
+        return _wrapr(self._r(o) - self.z)._with_q(_q_comb(_q_of(o), self.q, "-"))
 
     def __mul__(self, o):
         if not self._ok(o):
             return NotImplemented
-        return _wrapr(self.z * self._r(o))
+        return _wrapr(self.z * self._r(o))._with_q(_q_comb(self.q, _q_of(o), "*"))
 
     __rmul__ = __mul__
 
@@ -511,7 +562,7 @@ class SymReal:
             if IEEE_DIV:
                 return FloatNaN()
             raise ZeroDivisionError("float division by zero")
-        return _wrapr(self.z / d)
+        return _wrapr(self.z / d)._with_q(_q_comb(self.q, _q_of(o), "/"))
 
     def __rtruediv__(self, o):
         if not self._ok(o):
@@ -525,7 +576,7 @@ class SymReal:
         return _wrapr(z3.ToReal(z3.ToInt(q.z)))
 
     def __neg__(self):
-        return _wrapr(-self.z)
+        return _wrapr(-self.z)._with_q(None if self.q is None else (z3.simplify(-self.q[0]), self.q[1]))
 
     def __pos__(self):
         return self
@@ -584,12 +635,19 @@ class SymReal:
         return int(self.__trunc__())
 
     def __trunc__(self):
+        if self.q is not None:
+            n, d = self.q
+            return _wrapi(z3.If(n >= 0, n / d, -((-n) / d)))
         return _wrapi(z3.If(self.z >= 0, z3.ToInt(self.z), -z3.ToInt(-self.z)))
 
     def __floor__(self):
+        if self.q is not None:
+            return _wrapi(self.q[0] / self.q[1])  # Int `div` by a positive constant is floor division
         return _wrapi(z3.ToInt(self.z))
 
     def __ceil__(self):
+        if self.q is not None:
+            return _wrapi(-((-self.q[0]) / self.q[1]))
         return _wrapi(-z3.ToInt(-self.z))
 
     def __round__(self, nd=None):
@@ -868,6 +926,9 @@ class Engine:
             other = z3.Not(cond) if known else cond
             r, m2 = self.check(other)
             if r == z3.unknown:
+                if os.environ.get("SYMX_DUMP"):
+                    with open(os.environ["SYMX_DUMP"], "w") as fh:
+                        fh.write(self.solver.to_smt2().replace("(check-sat)", "") + f"(assert {other.sexpr()})\n(check-sat)\n")
                 raise Unsupported("solver unknown at branch")
             both = r == z3.sat
             if both:
